@@ -48,10 +48,26 @@ def h_parse( ctx ):
 
     # which outcome of the test is "skip"?  decided by evaluating the test on a blank line, a comment and a record (not by its spelling)
     from .fold import fold, NoFold
+    # the line is octets ( the file is read in binary ) until a statement re-binds it from <line>.decode( ... ): is one on the way to the test?
+    decodes = [ nd for nd in cfg.nodes if nd.kind == 'stmt' and _stores_to( nd.stmt, L ) and any( is_call_to( c, L + '.decode' ) for c in ast.walk( nd.stmt )) ]
+    dom0 = cfg.dominators()
+    decoded_first = [ nd for nd in decodes if any( a is lp for a in src.ancestors( nd.stmt )) and cfg.dominates( nd, skip_test_node, dom0 ) ]
+    samples = (( 'blank', '' ), ( 'comment', '# note' ), ( 'record', '1.5\t2\t{}' ))
+    if not decoded_first:
+        samples = tuple(( k, v.encode( 'ascii' )) for k, v in samples )
     try:
-        tv = { k: bool( fold( skip_if.test, { L: v } )) for k, v in (( 'blank', '' ), ( 'comment', '# note' ), ( 'record', '1.5\t2\t{}' )) }
-    except NoFold as exc:
+        tv = { k: bool( fold( skip_if.test, { L: v } )) for k, v in samples }
+    except ( NoFold, TypeError ) as exc:
         raise AnalysisError( 'parse_record: skip test outside the modelled subset: %s' % exc )
+    # a comment is free text ( logger.comment takes any encoding ): it is recognised on the octets, before the line is decoded - decoding first
+    # makes a comment outside the expected encoding an exception, which at the head of a file condemns the whole file
+    if decoded_first:
+        res.bad( src, decoded_first[0].stmt, 'the line is decoded before the blank / comment test',
+                 "a comment holding octets outside the expected encoding raises where it should be skipped: in front of a file's first record the whole file is ignored and its records are lost" )
+    elif decodes:
+        res.ok( src, decodes[0].stmt, 'the line is decoded only after the blank / comment test has let it through' )
+    else:
+        res.bad( src, lp, 'the record line is never decoded', 'the record text must be decoded with the expected encoding before it is split' )
     if tv['blank'] == tv['comment'] != tv['record']:
         SKIP_LABEL = 'true' if tv['blank'] else 'false'
         res.ok( src, skip_if, 'blank lines and comment lines take the same branch of the test, records the other' )
